@@ -999,10 +999,14 @@ impl<'a, 'b, R: FileManager> ValueModuleWalker<'a, R, AddressedQualifiedValue>
             SymbolExport::StarOfOtherFile { reference } => {
                 self.get_addressed_item_from_import_reference(reference.as_ref(), anchor)
             }
-            SymbolExport::TsType { .. } => unreachable!("we use get_value wich filters these out"),
-            SymbolExport::TsInterfaceDecl { .. } => {
-                unreachable!("we use get_value wich filters these out")
-            }
+            // reachable through a default export of a type (`export { T as default }`)
+            SymbolExport::TsType { .. } => self
+                .ctx
+                .error(anchor, DiagnosticInfoMessage::CannotUseTypeInValuePosition),
+            SymbolExport::TsInterfaceDecl { .. } => self.ctx.error(
+                anchor,
+                DiagnosticInfoMessage::CannotUseInterfaceInValuePosition,
+            ),
             SymbolExport::TsEnumDecl {
                 decl,
                 original_file,
